@@ -80,6 +80,8 @@ impl FeoxStore {
                 .hash_table
                 .read(key, |_, record| record.clone())
                 .ok_or(FeoxError::KeyNotFound)?;
+            #[cfg(feoxdb_verif)]
+            crate::verif::sched("jp_read");
             let observed = observed.get_or_insert_with(|| Arc::clone(&record));
             if !Arc::ptr_eq(observed, &record) && timestamp_value <= observed.retirement_timestamp()
             {
@@ -98,6 +100,8 @@ impl FeoxStore {
             let new_value = crate::utils::json_patch::apply_json_patch(&current_value, patch)?;
             self.validate_key_value(key, &new_value)?;
             crate::test_hooks::pause_at(crate::test_hooks::AFTER_JSON_PATCH_READ);
+            #[cfg(feoxdb_verif)]
+            crate::verif::sched("jp_apply");
 
             if self.replace_record_if_current(key, &source, &new_value, timestamp, 0, start)? {
                 return Ok(());
